@@ -565,7 +565,7 @@ fn context_case(cfg: &Cfg, grp: &str, case: u64, rng: &mut Rng, rep: &mut Report
     let Some(spec) = chain_spec(rng, n, total) else { rep.count("generator", "no primes"); return; };
     let cut = match build(&spec) { Ok(c) => c, Err(e) => { rep.count("generator", "rejected"); rep.note(&format!("context rejected: {}", e.chars().take(120).collect::<String>())); return; } };
     rep.count("generator", "ok");
-    rep.count("chains", &format!("data_levels={:02}", cut.lvls.len()));
+    rep.count("chains", &format!("data_levels={:02}", cut.lvls.len())); rep.count("degree", &format!("N={:05}", n));
     for &q in &spec.qs { rep.count("prime_bits", &format!("{:02}", refm::bit_len(q))); }
     let cx = Cx { cfg, grp, case };
     for l in &cut.lvls {
